@@ -71,7 +71,9 @@ Fixpoint status_loop (statuses : list (Z * status)) (ps : poll_state) : poll_sta
             {| done := set_key t st' (done ps); sched_stopped := sched_stopped ps;
                calls := match lookup t (done ps) with None => calls ps ++ [CComplete t] | Some _ => calls ps end |}
         | S_Failed =>
-            {| done := set_key t S_Failed (done ps); sched_stopped := sched_stopped ps; calls := calls ps ++ [CError t] |}
+            (* the scheduler is not told twice: no on_trial_error if it stopped/paused the trial in this batch *)
+            {| done := set_key t S_Failed (done ps); sched_stopped := sched_stopped ps;
+               calls := match lookup t (done ps) with None => calls ps ++ [CError t] | Some _ => calls ps end |}
         | S_Stopped =>
             if mem_Z t (sched_stopped ps) then ps
             else {| done := set_key t S_Stopped (done ps); sched_stopped := sched_stopped ps; calls := calls ps ++ [CError t] |}
@@ -88,11 +90,13 @@ Definition update_running_trials (statuses : list (Z * status)) (results : list 
 Definition count_error (t : Z) (cs : list call) : nat :=
   length (filter (fun c => match c with CError t' => t' =? t | _ => false end) cs).
 
-(* the run of trial t ended by failure or by a stop the scheduler did not ask for *)
-Definition ended_badly (statuses : list (Z * status)) (ss_after_results : list Z) (t : Z) : bool :=
+(* the run of trial t ended by a failure the scheduler has not already answered with STOP/PAUSE in this
+   batch, or by a stop the scheduler did not ask for; [ps] = state after the results loop *)
+Definition decided (ps : poll_state) (t : Z) : bool := match lookup t (done ps) with Some _ => true | None => false end.
+Definition ended_badly (statuses : list (Z * status)) (ps : poll_state) (t : Z) : bool :=
   match lookup t statuses with
-  | Some S_Failed => true
-  | Some S_Stopped => negb (mem_Z t ss_after_results)
+  | Some S_Failed => negb (decided ps t)
+  | Some S_Stopped => negb (mem_Z t (sched_stopped ps))
   | _ => false
   end.
 
